@@ -81,9 +81,14 @@ def judge(c, r, tc, root):
             problems.append(("C09/empty-diagnostic:" + pl, "non-zero exit without any message"))
         elif c["family"] != "broken":
             hit = names_hit([n for n in c["names"] if not n.startswith("types.")], out)
-            if hit is None:
-                if "&types." in out or "types." in out:
-                    notes.append("weak-diagnostic")  # names the type only as a %#v dump of go/types internals
+            if re.search(r"&types\.\w+\{|\(\*types\.\w+\)\(0x", out):
+                # (F120) the offending type must be spelled as Go writes it, not as a dump of go/types' data structures
+                problems.append(("C09/diagnostic-prints-go-types-internals:" + pl,
+                                 "exit %d, the message spells the type as a dump of go/types internals instead of its Go spelling (%s): %s" % (
+                                     r["rc"], c["what"], out.strip().splitlines()[-1][:240])))
+            elif hit is None:
+                if False:
+                    pass
                 else:
                     problems.append(("C09/diagnostic-names-neither-call-nor-type:" + pl,
                                      "exit %d, but the message names neither the call (%s) nor the offending type: %s" % (
@@ -167,12 +172,16 @@ def run(rep):
 
         results = runs.par(lambda c: runs.goderive(binp, root, args_of(c), timeout=TIMEOUT), cases)
         # a timeout under machine load is not a hang: re-run those cases one at a time with a long limit
+        confirmed = 0
         for i, (c, r) in enumerate(zip(cases, results)):
+            if r["timeout"] and confirmed >= 3:
+                continue  # three hangs confirmed alone already: the remaining time-outs are taken as hangs too
             if r["timeout"]:
                 for f in ("derived.gen.go",):
                     if f not in c["files"] and os.path.exists(os.path.join(root, c["dir"], f)):
                         os.remove(os.path.join(root, c["dir"], f))
                 results[i] = runs.goderive(binp, root, args_of(c), timeout=3 * TIMEOUT)
+                confirmed += 1 if results[i]["timeout"] else 0
         ok_dirs = [c["dir"] for c, r in zip(cases, results) if r["rc"] == 0 and not r["timeout"]]
         tc = typecheck(root, ok_dirs)
         classes, other = {}, {}
@@ -197,6 +206,23 @@ def run(rep):
             if len(rep.cov["samples"]) < 6 and len(distinct) % 251 == 1:
                 rep.cov["samples"].append({"case": c["dir"], "family": c["family"], "plugin": c["plugin"], "input": c["what"],
                                            "rc": r["rc"], "stderr": r["out"].strip()[-200:]})
+        # ---- accepted element types that are comparable only at run time: the package's own probe test must pass
+        probes = [(c, r) for c, r in zip(cases, results) if c.get("tag") == "probe" and r["rc"] == 0 and not r["timeout"]
+                  and os.path.exists(os.path.join(root, c["dir"], "derived.gen.go")) and not (tc.get(c["dir"], {}).get("types") or tc.get(c["dir"], {}).get("parse"))]
+        for c, r in probes:
+            p = common.sh(["go", "test", "-count=1", "./" + c["dir"]], cwd=root, timeout=300)
+            if p.returncode != 0:
+                line = next((l for l in (p.stdout + p.stderr).splitlines() if "panic:" in l), (p.stdout + p.stderr).strip()[-200:])
+                e = classes.setdefault("C09/accepted-type-fails-at-run-time:" + c["plugin"], {
+                    "what": "%s over %s is accepted (exit 0, type-checks) but the generated code fails on dynamic values of non-comparable types: %s" % (
+                        c["call"], c["what"], line.strip()[:200]),
+                    "count": 0, "found": True,
+                    "replay": {"case": c["dir"], "family": c["family"], "plugin": c["plugin"], "input": c["what"], "files": runs.read_tree(os.path.join(root, c["dir"])),
+                               "cmd": "goderive ./%s && go test ./%s" % (c["dir"], c["dir"]), "rc": 0, "timeout": False, "stderr": (p.stdout + p.stderr)[-1200:],
+                               "observed": "go test fails after an accepted generation"}})
+                e["count"] += 1
+        rep.cov["probe_tests_run"] = len(probes)
+
         # ---- several packages in one invocation: the run fails iff one of the named packages fails, wherever the
         # failing package stands among the arguments and in the processing (path) order
         alone = {c["dir"]: r for c, r in zip(cases, results)}
